@@ -1575,3 +1575,16 @@ for kind, bound, rule in (("B", "covered <= 1", ""), ("M", "x <= 1", "R-C08-1"))
         VARIANTS.append(dict(prop=prop, id=f"solve-helper-extracted-{'ok' if kind == 'B' else 'glpk-bounds-x'}", kind=kind, rule=("R-C01-1" if prop == "C01" and kind == "M" else rule),
                              edits=[(CONT, "    def get_first_window(self, dissimilarity", _HELPER % bound), (CONT, _SOLVE_BEST, _SOLVE_BEST_NEW)],
                              note="solve step of get_best_alignment extracted into a flag-driven helper"))
+
+# closedness rules
+M("C07", "cost-rescaled-before-filter", DIS, "            if disorder <= criterium:", "            disorder *= 0.999\n            if disorder <= criterium:", "R-C07-2")
+M("C18", "writer-latin1-reader-default", CONT,
+  "        with open(path, \"w\", newline='') as csv_file:", "        with open(path, \"w\", newline='', encoding='latin-1') as csv_file:", "R-C18-2")
+B("C18", "both-sides-utf8", None, None, None) if False else None
+VARIANTS.append(dict(prop="C18", id="both-sides-utf8", kind="B", rule="", edits=[
+    (CONT, "        with open(path, \"w\", newline='') as csv_file:", "        with open(path, \"w\", newline='', encoding='utf-8') as csv_file:"),
+    (CONT, "        with open(path, newline='') as csv_file:", "        with open(path, newline='', encoding='utf-8') as csv_file:")]))
+VARIANTS.append(dict(prop="C05", id="n-samples-rebound", kind="M", rule="", file=CONT,
+                     old="        job = _compute_best_alignment_job\n", new="        n_samples = max(n_samples, 10)\n        job = _compute_best_alignment_job\n",
+                     note="not a defect by itself: must be reported as ANALYSIS-ERROR (exit 2), never silently accepted", expect_code=2))
+VARIANTS[:] = [v for v in VARIANTS if v is not None]
